@@ -22,6 +22,7 @@ from pedal.sandbox.constants import TOOL_NAME
 from pedal.sandbox.feedbacks import runtime_error, EXCEPTION_FF_MAP
 from pedal.sandbox.exceptions import SandboxHasNoFunction, SandboxHasNoVariable
 from pedal.sandbox.timeout import timeout, current_thread_was_terminated
+from pedal.sandbox.timeout import _verif_sync
 from pedal.sandbox.result import SandboxResult
 from pedal.sandbox.tracer import TRACER_STYLES
 
@@ -159,6 +160,7 @@ class Sandbox:
             return timeout(self.allowed_time, self._execute,
                            code, filename, kind, False, **meta)
         except TimeoutError as timeout_exception:
+            _verif_sync('timeout_handler')
             self._stop_patches()
             self._capture_exception(timeout_exception, sys.exc_info(),
                                     code, filename)
@@ -192,6 +194,7 @@ class Sandbox:
         # NOTE: https://docs.python.org/3/library/exceptions.html#SystemExit
         # This exception does not inherit from Exception and has to be caught separately
         except SystemExit as system_exit:
+            _verif_sync('student_system_exit')
             if current_thread_was_terminated():
                 # The time limit expired: the thread that waited for this one has already
                 # stopped the patches and reported the timeout, and may be running the next
